@@ -4,11 +4,35 @@ import json, os
 V = os.path.dirname(os.path.dirname(os.path.abspath(__file__)))
 BASE = "for m in $(cat /w/out/gomods.txt); do MF=$(cd /repo/$m && . /w/out/goenv.sh && gomodflag); (cd /repo/$m && go test $MF -json -vet=off -count=1 -timeout 25m ./...); done"
 
+TIE_LOC = ("Tie: the hand-written Lean model of both State implementations, the Location API, queries and event processing (lean/RulioModel) is run by the compiled "
+           "driver on the same generated operation histories as the real code (Go harness built from /repo's working tree); every result is compared, and where a "
+           "brute-force specification exists (matcher over all stored facts/rules, deleteWith closure) the model's answer is compared with it too. ")
+NOTE_LOC = ("Trusted: Lean kernel + propext/Classical.choice/Quot.sound (audited every run); the hand-written model (validated only by the differential run, whose reach is "
+            "bounded by the generators: small id spaces, JSON values of depth <= 3, integers only); Go map iteration order is not enumerated; otto/encoding/json/time by contract.")
+
 CHECKS = {
+ "C01": dict(
+   text="Lean theorems about the pattern-index model (Props/C01.lean; the index over-approximates the matcher on the IdxOK/EvOK fragment) audited on every run. " + TIE_LOC +
+        "Histories of add/replace/remove/overwrite/enable/clear with 0-2 ancestor levels, both states; dispatch compared with the brute-force specification and between the two states.",
+   note=NOTE_LOC + " Index design limits outside IdxOK/EvOK are listed as known findings and replayed from their witnesses.",
+   technique="Lean 4 proof over a hand-written model + differential correspondence check (impl / model / brute-force spec)", ref="5 (C01)"),
+ "C02": dict(
+   text="Lean theorems about the term index and both search implementations (Props/C02.lean) audited on every run. " + TIE_LOC +
+        "Histories of AddFact/RemFact/GetFact/SearchFacts over small id spaces under both states; searches compared with the brute-force specification and indexed with linear.",
+   note=NOTE_LOC, technique="Lean 4 proof over a hand-written model + differential correspondence check (impl / model / brute-force spec / indexed vs linear)", ref="5 (C02)"),
  "C05": dict(
-   text="Lean 4 theorems about the matcher model (Props/C05.lean) audited on every run; the model is tied to sheens/rulio's matcher by a differential run of core.Match against the compiled Lean model and against a brute-force executable specification on generated (pattern, data, bindings) triples.",
+   text="Lean 4 theorems (Props/C05.lean, 13): the matcher model is sound and complete w.r.t. the partial-match specification pmv for all patOK patterns and dataOK data (unbounded; arrays with "
+        "backtracking included), total, never nonGround on ground input, result set invariant under deep permutations of the pattern; negative theorem for repeated variables over structured values. "
+        "The model is tied to sheens/rulio's matcher by a differential run of core.Match against the compiled Lean model and against a brute-force executable specification on generated triples.",
    note="Trusted: Lean kernel + propext/Classical.choice/Quot.sound; the hand-written port of sheens match.go (validated only by the differential run); Go map iteration order is sampled (3 calls per case), not enumerated.",
-   technique="Lean 4 proof over a hand-written model + differential correspondence check", ref="5 (C05)"),
+   technique="Lean 4 proof (structural induction over the nested JSON type) over a hand-written model + differential correspondence check", ref="5 (C05)"),
+ "C20": dict(
+   text="Lean 4 theorems (Props/C20.lean, 24, audited each run) about an executable model of OutboundBreaker's counts array, concurrent Do callers, Throttle.Submit bookkeeping and the Location capacity gate; "
+        "the comparisons, offsets, guards and lock structure of the model are regenerated from core/breaker.go and core/location.go on every run; the model is compared with the real code by white-box runs of "
+        "slide()/Do() with exact clock readings, forced Throttle schedules, real-goroutine stress, capacity histories, and wall-clock scripts.",
+   note="Partial for the timing clauses: the recovery clause is false on the unchanged tree (negative theorems plus replayed findings; only a two-window recovery under slow polling is proved); the window bound is over "
+        "20*floor(interval/20) ns. Trusted: extractor (go/ast), monotone clock, sync.Mutex mutual exclusion, Go runtime. Data races are reached only by the -race search when the tie breaks.",
+   technique="Lean 4 proof (refinement to a ghost model; induction over call sequences and schedules) over a model built on definitions regenerated from the Go source + differential correspondence check", ref="5 (C20)"),
 }
 NOT_YET = {}
 
